@@ -198,8 +198,7 @@ def run(ctx):
            "the mapper is indexed by source codes and stores target codes: its length comes from the source "
            "alphabet, its dtype must hold the largest *target* code", zeros[0].lineno)
     ctx.ob("R3.table-dtype-from-stored-alphabet", ALPH, "AlphabetMapper.__init__", "mapper[old] = target.encode(source.decode(old))",
-           "symbol = source_alphabet.decode(old_code)" in ast.unparse(am) and "new_code = target_alphabet.encode(symbol)" in ast.unparse(am)
-           and "self._mapper[old_code] = new_code" in ast.unparse(am),
+           mapper_through_symbol(am),
            "mapping must go through the symbol", am.lineno, nontrivial=False)
     # the identity shortcut: mapping c -> target.encode(source.decode(c)) is the identity exactly when the
     # alphabet that *encodes* extends the alphabet that *decodes* (X.extends(Y): Y's symbols are a prefix of X's)
@@ -357,6 +356,24 @@ def run(ctx):
     osrc = [st for st in stmts(tr) if isinstance(st, ast.Assign) and isinstance(st.targets[0], ast.Name) and st.targets[0].id == ov]
     ctx.ob("R6.coupled-permutation", TYPES, "NucleotideSequence.translate", ast.unparse(osrc[0]),
            bool(names_in(osrc[0].value) & coupled), "the permutation must be computed from one of the coupled lists", osrc[0].lineno)
+
+
+def mapper_through_symbol(am):
+    """inside `for V in range(len(source_alphabet))`: self._mapper[V] = target_alphabet.encode(source_alphabet.decode(V)),
+    however many temporaries the loop body uses"""
+    from ..exprnorm import summarize_block, subst
+    for lp in ast.walk(am):
+        if isinstance(lp, ast.For) and isinstance(lp.target, ast.Name) and same_expr(lp.iter, "range(len(source_alphabet))"):
+            v = lp.target.id
+            env = summarize_block(lp.body).env
+            m = env.get("self")
+            # the store is recorded as __setattr__/__set__ on self._mapper: look for the raw statement and substitute its value
+            for st in lp.body:
+                if isinstance(st, ast.Assign) and isinstance(st.targets[0], ast.Subscript) and same_expr(st.targets[0].value, "self._mapper") \
+                        and same_expr(st.targets[0].slice, v):
+                    pre = summarize_block(lp.body[:lp.body.index(st)]).env
+                    return same_expr(subst(st.value, pre), f"target_alphabet.encode(source_alphabet.decode({v}))")
+    return False
 
 
 _MUTATORS = {"append", "extend", "insert", "update", "sort", "fill", "remove", "pop", "clear", "add", "setdefault", "put", "resize", "itemset"}
